@@ -36,6 +36,7 @@ def install(it, log):
     def h_swap(it_, a):
         x = a[0].obj.cells[a[0].off]; a[0].obj.cells[a[0].off] = a[1].obj.cells[a[1].off]; a[1].obj.cells[a[1].off] = x
     it.hooks["vp_swap"] = h_swap
+    it.hooks["vp_count_char"] = lambda it_, a: sum(1 for k in range(a[0].off, a[1].off) if a[0].obj.cells[k] == a[2])
     def chars(p, n=None):
         out = []; k = p.off
         while n is None or len(out) < n:
@@ -62,12 +63,17 @@ def expected_write(key, value):
     if len(key) <= 8:
         if any(not (c.isupper() or c.isdigit() or c in "-_") for c in key): return "reject"       # malformed standard keyword
         if any(c in "-_" for c in key): return None
-        # fixed-format string card: "KEYWORD = '" occupies columns 1-11, the closing quote must be at or before column 80
-        return "reject" if len(value) > 68 else "accept"
+        # fixed-format string card: "KEYWORD = '" occupies columns 1-11, the closing quote must be at or before column 80;
+        # a quote inside the value is written as two quotes and takes two columns
+        return "reject" if len(value) + value.count("'") > 68 else "accept"
     if any(c == "=" or c.islower() for c in key): return "reject"                                  # malformed HIERARCH keyword
     # HIERARCH card as cfitsio lays it out: "HIERARCH " + key + "= '" + value + "'" must fit the 80 columns (continued strings are not used)
     room = 80 - (9 + len(key) + 3 + 1)
-    return "reject" if len(value) > room else "accept"
+    eff = len(value) + value.count("'")
+    if eff <= room: return "accept"
+    # cfitsio squeezes "KEY = 'v'" to "KEY='v'" when the card would not fit otherwise: one or two more columns may or may not be
+    # usable - not judged here; whether such a value survives is decided by the serialisation obligations
+    return "reject" if eff > room + 2 else None
 
 def run_history(hist):
     t0 = time.time(); tag = "history " + " ; ".join("%s(%s)" % (o[0], ",".join(repr(x)[:14] for x in o[1:])) for o in hist)
@@ -119,9 +125,44 @@ def run_history(hist):
 
 LONG = "LONGER KEY NAME"
 OPS = [("write", "A", "1"), ("write", "A", "two"), ("write", "B2", ""), ("write", LONG, "3.5e7"), ("write", "ORDER3", "x"), ("write", "lower", "x"), ("write", "A.B", "x"),
-       ("write", LONG.lower(), "x"), ("write", "LONGER Key NAME", "x"), ("write", "SHORT lc", "y"), ("write", "KEY=LONGISH", "x"), ("write", "PERIOD0", "1"), ("write", "Ab", "x"), ("write", "ORDERSTATISTIC", "1"), ("write", "COMMENTARY", "c"), ("write", "AB", "ab"), ("write", "A", "1"), ("write", "B2", "q"), ("write", "A", "v" * 75), ("write", LONG, "w" * 70), ("write", "A", "e" * 68), ("write", "A", "f" * 69), ("write", LONG, "g" * (67 - len(LONG))), ("write", LONG, "h" * (68 - len(LONG))), ("write", "Z9", "it's 'quoted'"),
+       ("write", LONG.lower(), "x"), ("write", "LONGER Key NAME", "x"), ("write", "SHORT lc", "y"), ("write", "KEY=LONGISH", "x"), ("write", "PERIOD0", "1"), ("write", "Ab", "x"), ("write", "ORDERSTATISTIC", "1"), ("write", "COMMENTARY", "c"), ("write", "AB", "ab"), ("write", "A", "1"), ("write", "B2", "q"), ("write", "A", "v" * 75), ("write", LONG, "w" * 70), ("write", "A", "e" * 68), ("write", "A", "f" * 69), ("write", LONG, "g" * (67 - len(LONG))), ("write", LONG, "h" * (68 - len(LONG))), ("write", "Z9", "it's 'quoted'"), ("write", "Q68", "q" * 60 + "'" + "r" * 7), ("write", "Q67", "q" * 60 + "'" + "r" * 6), ("write", LONG, "h" * (66 - len(LONG)) + "'"), ("write", LONG, "h" * (65 - len(LONG)) + "'"),
        ("remove", "A"), ("remove", "B2"), ("remove", "NOPE"), ("remove", LONG), ("get", "A"), ("get", "B2"), ("get", "NOPE"), ("get", LONG)]
 
+def run_roundtrip(hist):
+    """the same history on a populated table of the unified unit (tools/tableprog.py), then write_fits, read_fits into a second
+    object: the key store must come back in order with the same values (trailing blanks may be gained)"""
+    import c20
+    from tools import tableprog as T
+    t0 = time.time(); tag = "round trip after " + " ; ".join("%s(%s)" % (o[0], ",".join(repr(x)[:14] for x in o[1:])) for o in hist)
+    try:
+        prog, params, consts = TPROG; disk = c20.make_disk()
+        it, al = T.new_object(prog, params, consts, disk, X14.RatDom()); it2, al2 = T.new_object(prog, params, consts, disk, X14.RatDom())
+        it.call("read_fits", [cstr(it, "A")])
+        if it.globals["vp_thrown"].cells[0]: return [(tag, False, "the base table could not be read", time.time() - t0)]
+        for op in hist:
+            it.globals["vp_thrown"].cells[0] = 0
+            if op[0] == "write": it.call("write_key", [cstr(it, op[1]), cstr(it, op[2]), len(op[2])])
+            elif op[0] == "remove": it.call("remove_key", [cstr(it, op[1])])
+        it.globals["vp_thrown"].cells[0] = 0
+        st = c20.state(it, al)
+        if st[0] != "table": return [(tag, False, "object invalid after the history: %s" % (st[1],), time.time() - t0)]
+        it.call("write_fits", [cstr(it, "out")])
+        if it.globals["vp_thrown"].cells[0]: return [(tag, False, "write_fits failed on a table whose keys were all accepted by write_key", time.time() - t0)]
+        it2.call("read_fits", [cstr(it2, "out")])
+        if it2.globals["vp_thrown"].cells[0]: return [(tag, False, "the written file is rejected by the reader", time.time() - t0)]
+        st2 = c20.state(it2, al2); bad = []
+        if st2[0] != "table": bad.append("re-read object invalid")
+        else:
+            a, b = st[1]["aux"], st2[1]["aux"]
+            if [k for k, v in a] != [k for k, v in b]: bad.append("keys %s, written %s" % ([k for k, v in b][:6], [k for k, v in a][:6]))
+            else:
+                for (k, v), (k2, v2) in zip(a, b):
+                    if not (v2.startswith(v) and v2[len(v):].strip(" ") == ""): bad.append("value of %r reads back as %r, stored %r" % (k, v2, v)); break
+        return [(tag, not bad, "; ".join(bad)[:500], time.time() - t0)]
+    except Exception as ex:
+        return [(tag + " execution [%s]" % str(ex)[:80], False, "%s: %s" % (type(ex).__name__, ex), time.time() - t0)]
+
+TPROG = None
 def api_instantiates():
     """the functions whose extracted text is executed must be the code a C++ user gets: instantiate each of them natively"""
     src = os.path.join(vlib.workdir(), "c16_api.cpp")
@@ -158,12 +199,26 @@ def main():
     for o in flat:
         if not o[1]: rep.add_violation("C16-histories", o[0].replace(" ", "_")[:150], o[0][:300] + ": " + o[2], trace=o[2])
     rep.samples += [o[0][:200] for o in flat[5:8]]
+    # serialisation half: what write_key accepted survives write_fits / read_fits
+    global TPROG
+    from tools import tableprog as T
+    tp, tparams, tfns = T.build(vlib.workdir()); TPROG = (tp, tparams, units.cfitsio_constants())
+    for n in ("write_fits", "write_fits_core", "read_fits", "read_fits_core_body"):
+        if n in tfns: rep.functions.append(tfns[n].info())
+    rhists = [h for h in hists if len(h) <= 2 and any(o[0] == "write" for o in h)] + [h for h in hists if len(h) > 3][: (1500 if thorough else 250)]
+    t2 = time.time()
+    with mp.Pool(min(vlib.NCORES, 16)) as pool: rres = pool.map(run_roundtrip, rhists, chunksize=8)
+    rflat = [o for r in rres for o in r]
+    rep.add_group("E3 execution of the same histories on a populated table followed by write_fits / read_fits through the cfitsio model (BOUNDED)", len(rflat), sum(1 for o in rflat if o[1]), time.time() - t2,
+                  bounded="%d histories (every history of length <= 2 with a write, %d of the random ones)" % (len(rhists), 1500 if thorough else 250), name="C16-serialisation")
+    for o in rflat:
+        if not o[1]: rep.add_violation("C16-serialisation", o[0].replace(" ", "_")[:150], o[0][:300] + ": " + o[2], trace=o[2])
     t1 = time.time(); ok, det, out = api_instantiates()
     rep.add_group("native C++ instantiation of the functions under contract (g++, ASan/UBSan smoke run)", 1, 1 if ok else 0, time.time() - t1, bounded="one program using write_key<int/double/string>, get_aux_value, read_key<int/string>, remove_key", name="C16-api-instantiates")
     if not ok: rep.add_violation("C16-api-instantiates", "write_key/get_aux_value/read_key/remove_key_instantiate_and_run", "the key-store API does not instantiate / run natively: " + det, trace=out[-3000:], replay=dict(replayed=True, input="c16_api.cpp (generated)", observed=out[-2500:]))
     rep.extra["evaluations"] = len(hists); rep.extra["distinct_nontrivial"] = len(set(h for h in hists if len(h) >= 2))
     rep.extra["rule"] = "one evaluation = one operation history executed from the extracted code and compared step by step with an ordered-map model; non-trivial = at least two operations; histories are distinct tuples"
-    rep.assume("IN-MEMORY HALF ONLY: typed reads (read_key<T> through std::istringstream) and the survival of accepted entries through a FITS round trip (cfitsio) are NOT covered",
+    rep.assume("typed reads (read_key<T> through std::istringstream) are NOT covered; survival through a FITS round trip is checked against the cfitsio model (assumed contract, held to the installed cfitsio byte for byte by C06's conformance obligations)",
                "BOUNDED: enumerated / random operation histories over a small key and value alphabet (standard keys, HIERARCH key, reserved prefix, lower-case and punctuated keys, empty / quoted / over-long values)",
                "the text of the value (operator<< of the value type) is a parameter (R23); allocation failure is not modelled (R22: catch(...) handlers dropped); libc/ctype/std::copy semantics supplied by the interpreter",
                "acceptance oracle written from the property statement: reserved prefixes, lower-case/punctuated standard keys, '='/lower-case in long keys and clearly over-long values must be rejected; plain short keys with short values must be accepted; borderline lengths and '-'/'_' in standard keys are not judged",
